@@ -59,6 +59,11 @@ pub struct Plan {
     pub sk: EpKnobs,
     pub read_cap: usize,
     pub streams: Vec<StreamPlan>,
+    /// scripted link events after establishment: (at µs, kind, duration µs);
+    /// kind 0 = two-way partition, 1 = client->server cut, 2 = server->client cut,
+    /// 3 = inbound stall at the server, 4 = inbound stall at the client, 5 = NAT rebind of the client
+    #[serde(default)]
+    pub link_events: Vec<(u64, u8, u64)>,
 }
 
 pub fn pattern(key: u64, len: usize) -> Vec<u8> {
@@ -213,7 +218,22 @@ pub fn gen_plan(seed: u64, faulty: bool, tier: Tier) -> Plan {
             streams.push(StreamPlan { opener_is_client, bidi, start_us: rng.range(40_000, 120_000), fwd, back });
         }
     }
-    Plan { seed, rt, net, ck, sk, read_cap, streams }
+    // partitions that heal, slow nodes and a NAT rebind (fault batch only; every window is far
+    // shorter than the 30 s idle timeout, so the transport is required to recover)
+    let mut link_events = Vec::new();
+    if faulty {
+        for _ in 0..rng.usize(0, 3) {
+            let kind = rng.below(6) as u8;
+            let dur = match kind {
+                5 => 0,
+                3 | 4 => rng.range(5_000, 400_000),
+                _ => rng.range(20_000, 4_000_000),
+            };
+            link_events.push((rng.range(0, 600_000), kind, dur));
+        }
+        link_events.sort();
+    }
+    Plan { seed, rt, net, ck, sk, read_cap, streams, link_events }
 }
 
 #[derive(Debug)]
@@ -525,6 +545,40 @@ pub fn execute(plan: &Plan, trace: bool) -> Exec {
         net.note("established");
         // short reads on every protocol-level read from here on (buggify; always legal)
         wtransport::verif::set_read_cap(plan.read_cap);
+        if !plan.link_events.is_empty() {
+            let (net2, cs, ss, evs) = (net.clone(), pair.client_sock.clone(), pair.server_sock.clone(), plan.link_events.clone());
+            tokio::spawn(async move {
+                let t0 = tokio::time::Instant::now();
+                let mut rebinds = 0u16;
+                for (at, kind, dur) in evs {
+                    tokio::time::sleep_until(t0 + Duration::from_micros(at)).await;
+                    let d = Duration::from_micros(dur);
+                    match kind {
+                        0 => {
+                            net2.partition(&cs, &ss, true);
+                            tokio::time::sleep(d).await;
+                            net2.partition(&cs, &ss, false);
+                        }
+                        1 => {
+                            net2.set_block(&cs, &ss, true);
+                            tokio::time::sleep(d).await;
+                            net2.set_block(&cs, &ss, false);
+                        }
+                        2 => {
+                            net2.set_block(&ss, &cs, true);
+                            tokio::time::sleep(d).await;
+                            net2.set_block(&ss, &cs, false);
+                        }
+                        3 => net2.stall_inbound(&ss, d),
+                        4 => net2.stall_inbound(&cs, d),
+                        _ => {
+                            rebinds += 1;
+                            net2.rebind(&cs, format!("10.0.7.{}:{}", rebinds, 40000 + rebinds).parse().unwrap());
+                        }
+                    }
+                }
+            });
+        }
         let reg: Registry = Arc::new(Mutex::new(HashMap::new()));
         let (tx, mut rx) = mpsc::unbounded_channel();
         spawn_acceptors(net.clone(), cconn.clone(), true, plan.clone(), reg.clone(), tx.clone());
@@ -644,6 +698,7 @@ impl TypedScenario for C01E2E {
         let mut c = Vec::new();
         c.extend(shrink_array(&v, "/streams", 1));
         c.extend(shrink_net(&v, "/net"));
+        c.extend(shrink_array(&v, "/link_events", 0));
         c.extend(shrink_num(&v, "/read_cap", 0));
         for (i, s) in plan.streams.iter().enumerate() {
             c.extend(shrink_num(&v, &format!("/streams/{i}/start_us"), 0));
@@ -820,7 +875,7 @@ pub fn def() -> PropertyDef {
             Box::new(Typed(C01E2E { faulty: true })),
             Box::new(Typed(C01Raw)),
         ],
-        rule: "Each run: real wtransport client and server over the simulated network, 1-12 concurrent streams over the roles {client,server} x {uni, bidi (both directions)}, payload lengths boundary-biased from 0 to 3 flow-control windows (windows are per-run knobs), generated write partitions (write / write_all / tokio AsyncWrite) and read partitions (read / read_exact / tokio AsyncRead, buffers 1 B..64 KiB) with pauses, optional 1-3 byte short-read cap on protocol-level reads. A run is non-trivial when the session was established, at least one flow was verified byte-for-byte to end-of-stream with >0 bytes and (fault sub-batch) at least one network fault fired; distinct = distinct plan hashes among those. raw-preamble-segmentation: the scripted raw peer (both roles) opens 1-4 WebTransport uni / bidi streams whose preamble (type / signal + session id encoded on 1, 2, 4 or 8 bytes) and payload (0..5000 B) are written in 1-4 pieces with network quiescence between the pieces (cuts mostly inside the preamble), optionally under the short-read cap; the application must read exactly the payload of every stream and be handed nothing else.",
+        rule: "Each run: real wtransport client and server over the simulated network, 1-12 concurrent streams over the roles {client,server} x {uni, bidi (both directions)}, payload lengths boundary-biased from 0 to 3 flow-control windows (windows are per-run knobs), generated write partitions (write / write_all / tokio AsyncWrite) and read partitions (read / read_exact / tokio AsyncRead, buffers 1 B..64 KiB) with pauses, optional 1-3 byte short-read cap on protocol-level reads; the fault batch adds loss / duplication / reordering / corruption for the first 30 s plus 0-3 scripted link events: two-way or one-way partitions of 20 ms-4 s that heal, inbound stalls of 5-400 ms at either node, NAT rebinds of the client. A run is non-trivial when the session was established, at least one flow was verified byte-for-byte to end-of-stream with >0 bytes and (fault sub-batch) at least one network fault fired; distinct = distinct plan hashes among those. raw-preamble-segmentation: the scripted raw peer (both roles) opens 1-4 WebTransport uni / bidi streams whose preamble (type / signal + session id encoded on 1, 2, 4 or 8 bytes) and payload (0..5000 B) are written in 1-4 pieces with network quiescence between the pieces (cuts mostly inside the preamble), optionally under the short-read cap; the application must read exactly the payload of every stream and be handed nothing else.",
         assumptions: vec![
             "quinn, quinn-proto, rustls, ring and tokio are executed for real but trusted: a QUIC-level data loss would be attributed to wtransport until triaged",
             "parallelism is modelled as interleaving at await points on a current-thread runtime; data races inside tokio/quinn primitives are out of scope",
